@@ -10,7 +10,7 @@ PART = {
     "stages": [
         # same family as C19 part 1 with another seed salt: the oracle fails on any PANIC of core_parser
         {"name": "ndl_no_panic", "bin": "c19_ndl", "model": "ndl", "n_quick": 12000, "n_thorough": 1200000,
-         "shards": 4, "shards_thorough": 16, "seed_salt": 1414},
+         "shards": 4, "shards_thorough": 16, "seed_salt": 1414, "extra_args": "--panic-only"},
     ],
     "rule": "ndl_no_panic: texts given to core_parser (repository NDL files, rendered generated trees in tab / 4-space / "
             "CRLF renderings, trees with one structural error, 1..3-fold mutants of the repository files: token "
